@@ -28,7 +28,10 @@ type rangeAggIterator struct {
 	// window state
 	window   map[GroupingKey]Series
 	interval time.Duration
-	entry    SampledEntry
+	// offset is added back to the step timestamp: the window is shifted by offset,
+	// but the result belongs to the requested evaluation time.
+	offset time.Duration
+	entry  SampledEntry
 	// buffered whether last entry is buffered
 	buffered bool
 }
@@ -62,8 +65,14 @@ func RangeAggregation(
 		}
 	}
 
+	var offset time.Duration
+	if o := expr.Range.Offset; o != nil {
+		offset = o.Duration
+	}
+
 	return &rangeAggIterator{
-		iter: iter,
+		iter:   iter,
+		offset: offset,
 
 		agg:     agg,
 		stepper: newStepper(start, end, step),
@@ -88,7 +97,7 @@ func (i *rangeAggIterator) Next(r *Step) bool {
 	i.fillWindow(windowStart, windowEnd)
 
 	// Aggregate the window.
-	r.Timestamp = otelstorage.NewTimestampFromTime(current)
+	r.Timestamp = otelstorage.NewTimestampFromTime(current.Add(i.offset))
 	r.Samples = r.Samples[:0]
 	for _, s := range i.window {
 		r.Samples = append(r.Samples, Sample{
